@@ -1,0 +1,36 @@
+//go:build verif
+// +build verif
+
+package bundler
+
+import "github.com/evanw/esbuild/internal/graph"
+
+// Thin accessor (no logic) used by the verification harness in /verif (C08):
+// what the scan phase produced, by arrival-order source index: the key path of
+// each file (empty if the slot is unused) and, for JavaScript files, the
+// SourceIndex of every import record (-1 if invalid); plus the entry points.
+
+type VerifScanLayoutFile struct {
+	KeyPath string
+	Records []int64
+}
+
+func VerifScanLayout(b *Bundle) (files []VerifScanLayoutFile, entryPoints []uint32) {
+	for _, f := range b.files {
+		out := VerifScanLayoutFile{KeyPath: f.inputFile.Source.KeyPath.Text}
+		if repr, ok := f.inputFile.Repr.(*graph.JSRepr); ok {
+			for _, record := range repr.AST.ImportRecords {
+				if record.SourceIndex.IsValid() {
+					out.Records = append(out.Records, int64(record.SourceIndex.GetIndex()))
+				} else {
+					out.Records = append(out.Records, -1)
+				}
+			}
+		}
+		files = append(files, out)
+	}
+	for _, e := range b.entryPoints {
+		entryPoints = append(entryPoints, e.SourceIndex)
+	}
+	return
+}
